@@ -875,6 +875,8 @@ func (e *SpecEnv) evalCall(x *ECall) SV {
 				return SV{t: app("bcat", a.t, b.t), typ: mathInt}
 			case "strkey":
 				return e.evalStrKey(x) // ext_kviter.go
+			case "kvsub":
+				return e.evalKvSub(x) // ext_kviter.go
 			case "kvkey", "kvval":
 				// T-KV: kvkey(s) / kvval(s): abstract identity of the byte string held by s (slice or array), used as key /
 				// value of a key-value store. Uninterpreted function of (block, offset, length) exactly like bigbytes, i.e. any
